@@ -563,21 +563,27 @@ fn run_c20(args: &Args) -> i32 {
             .map(|_| ())
             .and_then(|_| c20::golden::static_matches_heap());
         if let Err(detail) = r {
+            // The pre-checks tag their message with the clause in brackets.
+            let clause = detail
+                .strip_prefix('[')
+                .and_then(|d| d.split(']').next())
+                .unwrap_or("static_vs_heap")
+                .to_string();
             let _ = std::fs::create_dir_all(&replay_dir);
-            let path = replay_dir.join(format!("C20-{seed}-static-vs-heap.json"));
+            let path = replay_dir.join(format!("C20-{seed}-precheck.json"));
             let _ = std::fs::write(
                 &path,
                 serde_json::to_string_pretty(&json!({
-                    "property": "C20-static-vs-heap", "clause": "static_vs_heap", "detail": detail,
+                    "property": "C20-static-vs-heap", "clause": clause, "detail": detail,
                 }))
                 .unwrap(),
             );
-            println!("violated clause: static_vs_heap");
+            println!("violated clause: {clause}");
             println!("detail: {detail}");
             println!("VIOLATION property=C20 replay={}", path.display());
             violations += 1;
             exit = 1;
-            extra = json!({"violation": {"clause": "static_vs_heap", "detail": detail, "replay": path}});
+            extra = json!({"violation": {"clause": clause, "detail": detail, "replay": path}});
         }
     }
     let p = Arc::new(c20::C20);
